@@ -49,6 +49,10 @@ func NewFileManager(log backend.LogFunc) *FileManager {
 // Feed adds files to the FileManager.
 func (fm *FileManager) Feed(src string, files []*plugin.Generated) error {
 	var last string
+	// where the named files of this call went when they were not stored under
+	// their own name: the fresh name of a renamed file, or "" for a file that
+	// was dropped as a duplicate. Patches that name such a file follow it.
+	moved := make(map[string]string)
 
 FileLoop:
 	for i := 0; i < len(files); i++ {
@@ -69,7 +73,13 @@ FileLoop:
 			fm.files = append(fm.files, f)
 		} else {
 			if f.GetInsertionPoint() != "" {
-				// FIXME: when the target file is renamed due to name collision, the patch may be invalid.
+				if to, ok := moved[name]; ok {
+					if to == "" {
+						fm.log.Info("discard patch @", f.GetInsertionPoint())
+						continue
+					}
+					name = to
+				}
 				fm.patch[name] = append(fm.patch[name], f)
 			} else {
 				fst := idx
@@ -89,6 +99,7 @@ FileLoop:
 							fm.log.Info("discard patch @", files[j].GetInsertionPoint())
 							i++
 						}
+						moved[name] = ""
 						continue FileLoop
 					}
 					renamed = fmt.Sprintf("%s_%d%s", pth, cnt, ext)
@@ -110,6 +121,7 @@ FileLoop:
 				fm.files = append(fm.files, f)
 				fm.count[name]++
 				f.Name = &renamed
+				moved[name] = renamed
 				name = renamed // propagate the new name to last
 			}
 		}
